@@ -170,6 +170,21 @@ func runC08(c *runCtx) {
 				} else {
 					verdict = "other:" + rerr.Error()
 				}
+				// the same commit read again through the same repository handle gets the same verdict
+				if verdict != "panic" {
+					var rerr2 error
+					again := "accepted"
+					if p := recoverTo(func() { _, rerr2 = bug.Read(repo, cop.Id()) }); p != "" {
+						again = "panic"
+					} else if rerr2 != nil && strings.Contains(rerr2.Error(), "signature failure") {
+						again = "signatureError"
+					} else if rerr2 != nil {
+						again = "other:" + rerr2.Error()
+					}
+					if again != verdict {
+						c.violation(c.nCases, "C08/verdict-changes-on-reread", fmt.Sprintf("commit at time %d signed by %v: %s on the first read, %s on the second read of the same commit (%s)", T, cm["key"], verdict, again, backend), hist)
+					}
+				}
 				repo.RemoveRef(ref)
 				commits = append(commits, cm)
 				verdicts = append(verdicts, verdict)
@@ -336,6 +351,80 @@ func runC08(c *runCtx) {
 		if backend == "gogit" {
 			cleanupScratch()
 		}
+	}
+	for k := 0; k < c.pick(1, 4); k++ {
+		c08Cache(c, pool[k%len(pool)])
+		cleanupScratch()
+	}
+}
+
+// c08Cache: the rule applied by a long-lived cache that learns of a key change through a pull.
+// Alice, keyless, is known to B (loaded in B's cache). She adopts a key; a commit in her name dated
+// after that and not signed arrives at B in the same pull as the identity update: B must refuse it
+// and leave its copy of the bug alone.  Then Alice's properly signed comment must be accepted.
+func c08Cache(c *runCtx, key *identity.Key) {
+	remote, _ := newGoGit("c08remote", true)
+	repoA, _ := newGoGit("c08a", false)
+	repoB, _ := newGoGit("c08b", false)
+	defer remote.Close()
+	for _, rp := range []repository.TestedRepo{repoA, repoB} {
+		if err := rp.AddRemote("origin", remote.GetLocalRemote()); err != nil {
+			panic(err)
+		}
+	}
+	cacheA, cacheB := mustCache(repoA), mustCache(repoB)
+	defer cacheA.Close()
+	defer cacheB.Close()
+	must := func(err error) {
+		if err != nil {
+			panic(err)
+		}
+	}
+	aliceA, err := cacheA.Identities().New("Alice", "alice@example.com")
+	must(err)
+	must(cacheA.SetUserIdentity(aliceA))
+	carolA, err := cacheA.Identities().New("Carol", "carol@example.com")
+	must(err)
+	bobB, err := cacheB.Identities().New("Bob", "bob@example.com")
+	must(err)
+	must(cacheB.SetUserIdentity(bobB))
+	bug1, _, err := cacheA.Bugs().New("bug1", "message")
+	must(err)
+	_, err = cacheA.Push("origin")
+	must(err)
+	must(cacheB.Pull("origin"))
+	if _, err := cacheB.Identities().Resolve(aliceA.Id()); err != nil { // loaded in B's cache
+		panic(err)
+	}
+	// unrelated activity moves the bugs-edit clock forward, then Alice adopts the key
+	_, _, err = cacheA.Bugs().NewRaw(carolA, 1_600_000_000, "carol's bug", "message", nil, nil)
+	must(err)
+	must(aliceA.Mutate(repoA, func(m *identity.Mutator) { m.Keys = append(m.Keys, key) }))
+	must(aliceA.Commit())
+	// somebody without Alice's private key comments in her name: dated after the key, unsigned
+	aliceNoPriv, err := identity.ReadLocal(repoA, aliceA.Id())
+	must(err)
+	forged, err := bug.Read(repoA, bug1.Id())
+	must(err)
+	_, _, err = bug.AddComment(forged, aliceNoPriv, 1_600_000_100, "not written by Alice", nil, nil)
+	must(err)
+	must(forged.Commit(repoA))
+	c.context("cache: key adopted, unsigned commit after it, both arrive in one pull")
+	_, err = cacheA.Push("origin")
+	must(err)
+	perr := cacheB.Pull("origin")
+	c.count(fmt.Sprintf("cache-pull-forged-refused=%v", perr != nil))
+	b, rerr := bug.Read(repoB, bug1.Id())
+	if rerr != nil {
+		c.violation(-1, "C08/cache-pull", "after a pull that brought an unsigned commit of a keyed author, B's own copy of the bug does not read: "+rerr.Error(), nil)
+	} else if len(b.Operations()) != 1 {
+		c.violation(-1, "C08/cache-pull", fmt.Sprintf("a long-lived cache accepted an unsigned commit dated after its author adopted a key (identity update and commit arrived in the same pull): the bug now has %d operations (pull error: %v)", len(b.Operations()), perr), nil)
+	}
+	if bc, err := cacheB.Bugs().Resolve(bug1.Id()); err == nil && len(bc.Snapshot().Operations) != 1 {
+		c.violation(-1, "C08/cache-pull", "the cache serves the forged operation", nil)
+	}
+	if ib, err := cacheB.Identities().Resolve(aliceA.Id()); err != nil || len(ib.Keys()) != 1 {
+		c.violation(-1, "C08/cache-pull", fmt.Sprintf("after the pull B's cache does not know Alice's new key (err %v)", err), nil)
 	}
 }
 
